@@ -87,7 +87,7 @@ def run(module_path, cfg_path, *, workdir, workers=16, mode="check", depth=None,
     e = dict(os.environ)
     if env:
         e.update({k: str(v) for k, v in env.items()})
-    t0 = time.time()
+    t0 = time.perf_counter()      # not time.time(): drivers running in other threads patch it to the virtual clock
     try:
         p = subprocess.run(cmd, cwd=str(module_path.parent), env=e, capture_output=True, text=True,
                            timeout=timeout)
@@ -99,7 +99,7 @@ def run(module_path, cfg_path, *, workdir, workers=16, mode="check", depth=None,
         subprocess.run(["pkill", "-f", str(meta)], capture_output=True)
     finally:
         shutil.rmtree(meta, ignore_errors=True)
-    res = TlcResult(ok=False, stdout=out, wall_s=time.time() - t0, cmd=" ".join(cmd))
+    res = TlcResult(ok=False, stdout=out, wall_s=time.perf_counter() - t0, cmd=" ".join(cmd))
     m = None
     for m in _SUMMARY.finditer(out):
         pass
